@@ -320,6 +320,79 @@ class ReturnComparison(ast.NodeTransformer):
         return node
 
 
+class SuperNoArgs(ast.NodeTransformer):
+    """super(Class, self) -> super()"""
+
+    def visit_Call(self, node):
+        self.generic_visit(node)
+        if isinstance(node.func, ast.Name) and node.func.id == "super" and len(node.args) == 2:
+            return ast.Call(func=node.func, args=[], keywords=[])
+        return node
+
+
+class AnnotateLocals(ast.NodeTransformer):
+    """x = v -> x: object = v for the plain single-name assignments of every function"""
+
+    def visit_FunctionDef(self, node):
+        self.generic_visit(node)
+        globals_ = set()
+        for n in _walk_no_nested(node):
+            if isinstance(n, (ast.Global, ast.Nonlocal)):
+                globals_.update(n.names)
+
+        class T(ast.NodeTransformer):
+            def visit_FunctionDef(self, n):
+                return n
+
+            def visit_Assign(self, n):
+                if len(n.targets) == 1 and isinstance(n.targets[0], ast.Name) and n.targets[0].id not in globals_:
+                    return ast.AnnAssign(target=n.targets[0], annotation=ast.Name(id="object", ctx=ast.Load()), value=n.value, simple=1)
+                return n
+
+        node.body = [T().visit(b) for b in node.body]
+        return node
+
+
+class DeMorgan(ast.NodeTransformer):
+    """test `A and B` of an if / while -> `not (not A or not B)`; `A or B` -> `not (not A and not B)`"""
+
+    def _rewrite(self, t):
+        if isinstance(t, ast.BoolOp) and len(t.values) >= 2:
+            dual = ast.Or() if isinstance(t.op, ast.And) else ast.And()
+            return ast.UnaryOp(op=ast.Not(), operand=ast.BoolOp(op=dual, values=[ast.UnaryOp(op=ast.Not(), operand=v) for v in t.values]))
+        return t
+
+    def visit_If(self, node):
+        self.generic_visit(node)
+        node.test = self._rewrite(node.test)
+        return node
+
+    def visit_While(self, node):
+        self.generic_visit(node)
+        node.test = self._rewrite(node.test)
+        return node
+
+
+class SwapPureAnd(ast.NodeTransformer):
+    """a and b -> b and a when both operands only touch locals, constants and private fields (cannot raise, no side effect)"""
+
+    def _pure(self, e):
+        for n in ast.walk(e):
+            if isinstance(n, (ast.Call, ast.Subscript, ast.BinOp, ast.Await, ast.Yield, ast.NamedExpr)):
+                return False
+            if isinstance(n, ast.Attribute) and not n.attr.startswith("_"):
+                return False
+            if isinstance(n, ast.Compare) and not all(isinstance(o, (ast.Is, ast.IsNot, ast.Eq, ast.NotEq)) for o in n.ops):
+                return False
+        return True
+
+    def visit_BoolOp(self, node):
+        self.generic_visit(node)
+        if len(node.values) == 2 and all(self._pure(v) for v in node.values):
+            return ast.BoolOp(op=node.op, values=[node.values[1], node.values[0]])
+        return node
+
+
 def _apply(sources, transformer_factory):
     out = dict(sources)
     for f in PY_FILES:
@@ -368,6 +441,10 @@ def benign_variants(sources):
     v.append(("conditional expressions -> if/else assignments", _apply(sources, TernaryToIf)))
     v.append(("if/else assignments -> conditional expressions", _apply(sources, IfToTernary)))
     v.append(("if cmp: return True / return False -> return cmp", _apply(sources, ReturnComparison)))
+    v.append(("super(Class, self) -> super()", _apply(sources, SuperNoArgs)))
+    v.append(("De Morgan on if / while tests", _apply(sources, DeMorgan)))
+    v.append(("pure and/or operands swapped", _apply(sources, SwapPureAnd)))
+    v.append(("plain local assignments annotated", _apply(sources, AnnotateLocals)))
     for ll in (80, 120):
         r = _ruff(sources, ll)
         if r is not None:
